@@ -252,6 +252,46 @@ def training(B, G, kind, n, h, a, bs, nbs, k=1):
     G.twin("twin_training_changes_parameters", np.asarray(finals[0][0][2], dtype=object).reshape(-1)[0], B.var("rbm_am_placeholder") if False else C.load_rbm(B, C.make_state(B, kind, n, h, a)[0].rbm_am, "am")[finals[0][0][1]].reshape(-1)[0])
 
 
+def sequence(B, G, kind, n, h, a):
+    """two identically seeded runs of an interleaving of public operations that edits returned tensors in place
+    (generate space -> sample from it with overwrite -> generate again -> sample -> statistics): since torch's generator is
+    re-seeded identically, the draws coincide iff every probability tensor handed to torch.bernoulli coincides, entry by entry"""
+    from qucumber.observables import SigmaZ
+
+    O = B.O
+    runs = []
+    for run in range(2):
+        st, P = C.make_state(B, kind, n, h, a)
+        cnt = script_tape(B)
+        rec = []
+
+        def bern(p, cnt=cnt, rec=rec):
+            cnt["b"] += 1
+            rec.append(np.array(p, dtype=object if B.symbolic else float).copy())
+            shp = np.shape(p)
+            return np.fromfunction(lambda *ix: (sum(ix) + cnt["b"]) % 2, shp) if len(shp) else np.array(float(cnt["b"] % 2))
+
+        B.stub_bernoulli(bern)
+        space = st.generate_hilbert_space()
+        first = [[int(float(x)) for x in row] for row in B.scalars(space)]
+        G.fact("run%d.space_is_the_enumeration" % run, first == [list(r) for r in C.space_rows(n)], first)
+        st.sample(1, initial_state=space, overwrite=True)
+        again = st.generate_hilbert_space(n)
+        st.sample(2, initial_state=again, overwrite=True)
+        out = SigmaZ().statistics(st, num_samples=4, num_chains=2, burn_in=1, steps=1)
+        runs.append((rec, out))
+    ra, rb = runs[0][0], runs[1][0]
+    G.fact("same_number_of_draws", len(ra) == len(rb) and len(ra) > 0, "%d vs %d Bernoulli calls" % (len(ra), len(rb)))
+    for t, (x, y) in enumerate(zip(ra, rb)):
+        x, y = x.reshape(-1), y.reshape(-1)
+        G.fact("draw%d.same_shape" % t, len(x) == len(y), "%d vs %d" % (len(x), len(y)))
+        for i in range(min(len(x), len(y))):
+            G.eq("draw%d.probability[%d]_identical_in_both_runs" % (t, i), x[i], y[i])
+    for key in ("mean", "variance"):
+        G.eq("statistics.%s_identical" % key, runs[0][1][key], runs[1][1][key])
+    G.twin("twin_draws_depend_on_the_state", ra[0].reshape(-1)[0], ra[0].reshape(-1)[-1])
+
+
 def seeding_pf(I):
     """pathfork: for every integer seed (incl. 0 and negatives) set_random_seed forwards exactly that seed to torch.manual_seed"""
     import torch
@@ -281,6 +321,8 @@ def jobs(tier):
         cfg += [("positive", 3, 2, None), ("complex", 3, 2, None), ("mixed", 1, 2, 1)]
     for kind, n, h, a in cfg:
         J.append(dict(name="readonly-%s-%d%d" % (kind, n, h), module="checks.c14", scenario="readonly", kwargs=dict(kind=kind, n=n, h=h, a=a)))
+    for kind, n, h, a in cfg[:3]:
+        J.append(dict(name="sequence-%s-%d%d" % (kind, n, h), module="checks.c14", scenario="sequence", kwargs=dict(kind=kind, n=n, h=h, a=a)))
     tr = [("positive", 2, 2, None, 2, None), ("positive", 2, 2, None, 2, 1), ("positive", 2, 1, None, 3, 2), ("complex", 2, 1, None, 2, None), ("complex", 2, 1, None, 2, 1), ("mixed", 1, 1, 1, 2, 1)]
     for kind, n, h, a, bs, nbs in tr:
         J.append(dict(name="training-%s-%d%d-bs%d-neg%s" % (kind, n, h, bs, nbs), module="checks.c14", scenario="training",
